@@ -29,8 +29,10 @@ Inductive act := Shift (s : nat) | Reduce (p : nat) | Accept.
 
 Record prow := { p_nt : nat; p_len : nat; p_act : bool }.     (* NTType, NumSymbols, has an explicit action *)
 Record srow := { s_actions : list (option act); s_recover : bool; s_gotos : list Z }.
-Record tables := { t_states : list srow; t_prods : list prow; t_err : nat }.
-(* t_err = token.TokMap.Type("error") : the number of the error terminal, 0 (INVALID) if there is none *)
+Record tables := { t_states : list srow; t_prods : list prow; t_err : nat; t_gate : bool }.
+(* t_err = token.TokMap.Type("error") : the number of the error terminal, 0 (INVALID) if there is none.
+   t_gate = false for generated parsers; true for gocc's own front-end parser, whose Error() (after the fix
+   for D9) additionally requires the canRecover flag of the state before shifting "error". *)
 
 (** ** Attributes *)
 Inductive attr :=
@@ -118,6 +120,7 @@ Definition error_step (fuel : nat) (st : stack) (next : token) (pos : nat) : rec
     match action_at s1 (t_err tb) with
     | None => RecPanic 11
     | Some (Some (Shift s2)) =>
+      if t_gate tb && negb (recover_at s1) then NotRecovered st1 pos else
       match skip_input fuel s2 next pos with
       | None => RecFuel
       | Some (true, next', pos') => Recovered ((s2, ea) :: st1) next' pos'
